@@ -292,14 +292,15 @@ func subLists() mon.Sub {
 			e := &wsflate.Extension{Parameters: cfg}
 			if viaHeader {
 				// the real header path: ws.Upgrader feeds the textual header to Negotiate
-				req := "GET / HTTP/1.1\r\nHost: x\r\nUpgrade: websocket\r\nConnection: Upgrade\r\nSec-WebSocket-Version: 13\r\nSec-WebSocket-Key: dGhlIHNhbXBsZSBub25jZQ==\r\n"
+				var extLines []string
 				if c.Rng.Intn(2) == 0 {
-					req += "Sec-WebSocket-Extensions: " + strings.Join(texts, ", ") + "\r\n"
+					extLines = []string{strings.Join(texts, ", ")}
 				} else {
-					for _, t := range texts {
-						req += "Sec-WebSocket-Extensions: " + t + "\r\n"
-					}
+					extLines = texts
 				}
+				// (header order is not important, RFC 6455 4.2.1: the offers sit anywhere among the mandatory headers)
+				req := reqWithExt(extLines, c.Rng.Intn(6))
+				det["extensions_header_position"] = strings.Index(req, "Sec-WebSocket-Extensions")
 				// more header lines BEHIND the offers, a small read buffer and a transport that delivers the request
 				// in pieces: the buffer the offers were read into is refilled before the handshake ends
 				for k := c.Rng.Intn(4); k > 0; k-- {
@@ -377,6 +378,24 @@ func subLists() mon.Sub {
 			c.Sample(det)
 		},
 	}
+}
+
+// reqWithExt builds an upgrade request whose Sec-WebSocket-Extensions lines sit at position pos (0..5) among the five
+// mandatory headers.
+func reqWithExt(extLines []string, pos int) string {
+	hdrs := []string{"Host: x", "Upgrade: websocket", "Connection: Upgrade", "Sec-WebSocket-Version: 13", "Sec-WebSocket-Key: dGhlIHNhbXBsZSBub25jZQ=="}
+	req := "GET / HTTP/1.1\r\n"
+	for i := 0; i <= len(hdrs); i++ {
+		if i == pos {
+			for _, l := range extLines {
+				req += "Sec-WebSocket-Extensions: " + l + "\r\n"
+			}
+		}
+		if i < len(hdrs) {
+			req += hdrs[i] + "\r\n"
+		}
+	}
+	return req
 }
 
 func sameParams(p wsflate.Parameters, o ref.PMCE) bool {
@@ -472,10 +491,7 @@ func subMalformed() mon.Sub {
 						bad := optionText(o)
 						for li, lines := range [][]string{{bad}, {bad + ", x-foo"}, {bad + ", permessage-deflate"}, {"x-foo; a=1, " + bad}, {"x-foo", bad + ", x-bar"}, {bad, "permessage-deflate"}, {bad, "x-foo", "permessage-deflate"}, {"permessage-deflate; client_no_context_takeover; client_no_context_takeover=1", bad}} {
 							c.Count(1)
-							req := "GET / HTTP/1.1\r\nHost: x\r\nUpgrade: websocket\r\nConnection: Upgrade\r\nSec-WebSocket-Version: 13\r\nSec-WebSocket-Key: dGhlIHNhbXBsZSBub25jZQ==\r\n"
-							for _, l := range lines {
-								req += "Sec-WebSocket-Extensions: " + l + "\r\n"
-							}
+							req := reqWithExt(lines, (li+ci/21+c.I)%6)
 							he := &wsflate.Extension{Parameters: cfgOf(ci)}
 							rec := xport.NewRec()
 							_, uerr := ws.Upgrader{Negotiate: he.Negotiate}.Upgrade(xport.RW{Reader: strings.NewReader(req + "\r\n"), Writer: rec})
